@@ -196,7 +196,9 @@ def check_copy(sp, node_idx, side, edit, target_idx):
     except Exception as e:  # noqa
         raise Violation("copy-raises", repr(e), case)
     if not compare(sub, c, case, "fresh-copy"):
-        return None  # copy not equal: C12's matter; reference and is_equal agree here
+        # reference and is_equal agree that the copy differs: the statement's last clause ("a deep copy compares equal to
+        # its original until one of them is edited") is broken on the copy side (C12 reports the field that differs)
+        raise Violation("fresh-copy-compares-unequal", "is_equal(original, copy) is False right after copy()", case)
     tl = treegen.nodes(c) if side else treegen.nodes(sub)
     tgt = tl[target_idx % len(tl)]
     if not apply_edit(tgt, edit):
